@@ -128,7 +128,7 @@ var specC09 = reg(&checkSpec{
 
 var specC10 = reg(&checkSpec{
 	prop: "C10", profiles: []string{"crash", "crash", "snap", "member"},
-	deciding: []string{"restart", "restart-consistent", "term-monotonic", "vote-durable", "converge", "leader-unique", "leader-complete", "commit-stable", "log-matching", "fsm-agreement", "no-crash"},
+	deciding: []string{"restart", "serve", "restart-consistent", "term-monotonic", "vote-durable", "converge", "leader-unique", "leader-complete", "commit-stable", "log-matching", "fsm-agreement", "no-crash"},
 	closing:  true,
 	rule:     "non-trivial: a node was killed at a hook point strictly inside a storage-mutating sequence and later restarted from that image; distinct by trace hash",
 	nontrivial: func(c *cluster) bool { return c.stats.has("crashed-at-hook") && c.stats.has("restarted") },
